@@ -133,6 +133,28 @@ def cases(tier, inst):
                                 a_, b_, c_ = slots
                                 yield ("optree", c, pos, ((a_, c1, b_), c2, c_))
                                 yield ("optree", c, pos, (a_, c1, (b_, c2, c_)))
+    # --- ONE sub-query object used as an operand in several comparisons of one condition
+    for c in (xonly if thorough else xonly[:2]):
+        for a_ in range(3):
+            for b_ in range(3):
+                if a_ == b_:
+                    continue
+                for conn in ("and", "or"):
+                    yield ("samesub", c, (("S", a_), conn, ("S", b_)))
+                    for d in plain[:2]:
+                        for conn2 in ("and", "or"):
+                            yield ("samesub", c, ((("S", a_), conn, ("S", b_)), conn2, d))
+                            yield ("samesub", c, (d, conn2, (("S", a_), conn, ("S", b_))))
+    # --- an attribute / a boolean method call of a sub-query in CONDITION position: the sub-query's conditions and that
+    #     boolean, at every position of a tree with up to two leaves
+    gplain = [("cmp", "le", A(X, "q"), L(2)), ("cmp", "ne", A(X, "p"), L(2))]
+    for c in REPRESENTATIVE_8[:6]:
+        for kind in ("flag", "call", "callattr"):
+            yield ("subcond", c, kind, "S")
+            for d in gplain:
+                for conn in ("and", "or"):
+                    yield ("subcond", c, kind, ("S", conn, d))
+                    yield ("subcond", c, kind, (d, conn, "S"))
     for k in (3, 1):                                # the(...) with a unique solution (p == 3) / (q == 3 -> p==2,q==3)
         for op in ("eq", "ne"):
             yield ("the_operand", k, op)
@@ -234,6 +256,39 @@ def queries_of(case):
         n = ("Q", "an", "setof", (X, Y), (inst_tree(tree, cmp_n),), vxy_decl)
         f = ("Q", "an", "setof", (X, Y), (inst_tree(tree, cmp_f),), vxy_decl)
         return n, f, RICH
+    if fam == "samesub":
+        _, c, tree = case
+        s = ("sub1", sub_q(c))                    # ONE sub-query object for every occurrence
+        cmps_n = [("cmp", "eq", A(Y, "ref"), s), ("cmp", "ge", A(Y, "p"), A(s, "p")), ("cmp", "le", A(s, "q"), A(Y, "q"))]
+        cmps_f = [("and", ("cmp", "eq", A(Y, "ref"), X), c), ("and", ("cmp", "ge", A(Y, "p"), A(X, "p")), c),
+                  ("and", ("cmp", "le", A(X, "q"), A(Y, "q")), c)]
+
+        def inst2(t, cmps):
+            if isinstance(t, tuple) and len(t) == 2 and t[0] == "S":
+                return cmps[t[1]]
+            if isinstance(t, tuple) and len(t) == 3 and t[1] in ("and", "or"):
+                return (t[1], inst2(t[0], cmps), inst2(t[2], cmps))
+            return t
+        n = ("Q", "an", "setof", (X, Y), (inst2(tree, cmps_n),), vxy_decl)
+        f = ("Q", "an", "setof", (X, Y), (inst2(tree, cmps_f),), vxy_decl)
+        return n, f, RICH
+    if fam == "subcond":
+        _, c, kind, tree = case
+        s = ("sub", sub_q(c))
+        sa_n = {"flag": ("t", A(s, "flag")), "call": ("t", ("c", s, "p_ge", (2,))),
+                "callattr": ("t", ("c", A(s, "ref"), "p_ge", (2,)))}[kind]
+        sa_f = ("and", c, {"flag": ("t", A(X, "flag")), "call": ("t", ("c", X, "p_ge", (2,))),
+                           "callattr": ("t", ("c", A(X, "ref"), "p_ge", (2,)))}[kind])
+
+        def inst3(t, leaf):
+            if t == "S":
+                return leaf
+            if isinstance(t, tuple) and len(t) == 3 and t[1] in ("and", "or") and (t[0] == "S" or t[2] == "S"):
+                return (t[1], inst3(t[0], leaf), inst3(t[2], leaf))
+            return t
+        n = ("Q", "an", "entity", X, (inst3(tree, sa_n),), VX1)
+        f = ("Q", "an", "entity", X, (inst3(tree, sa_f),), VX1)
+        return n, f, GRID
     thec = {3: ("cmp", "eq", A(X, "p"), L(3)), 1: ("cmp", "eq", A(X, "q"), L(3))}
     if fam in ("the_operand", "the_attr"):
         _, k, op = case
